@@ -26,7 +26,7 @@ RECURSIVE Flat(_)
 Flat(ss) == IF ss = <<>> THEN <<>> ELSE Head(ss) \o Flat(Tail(ss))
 
 St0(cfg) == [cfg |-> cfg, nodes |-> <<>>, pending |-> <<>>, pools |-> <<>>, placed |-> {}, opens |-> <<>>, created |-> <<>>,
-             home |-> {}, optsOf |-> {}, passOf |-> {}, ranNodes |-> <<>>, inPass |-> FALSE, sameHome |-> FALSE, allHomed |-> FALSE, homeStage |-> "-", nopen |-> 0, nguard |-> 0]
+             home |-> {}, optsOf |-> {}, passOf |-> {}, ranNodes |-> <<>>, started |-> FALSE, inPass |-> FALSE, sameHome |-> FALSE, allHomed |-> FALSE, homeStage |-> "-", nopen |-> 0, nguard |-> 0]
 Vs(guard, sigs) == [i \in DOMAIN sigs |-> V(guard, sigs[i])]
 
 Cnt0 == [opens |-> 0, opensJudged |-> 0, commits |-> 0, passesRan |-> 0, idempotent |-> 0, creates |-> 0, totals |-> 0]
@@ -71,7 +71,7 @@ AllHomed(nodes, pending, home, ran) ==
 TPassBegin ==
     /\ Ev.e = "PassBegin"
     /\ st' = [st EXCEPT !.nodes = Ev.nodes, !.pending = Ev.pending, !.pools = Ev.pools, !.placed = {}, !.opens = <<>>, !.created = <<>>,
-                        !.inPass = TRUE, !.sameHome = SameHome(Ev.nodes, Ev.pending, st.home, st.ranNodes), !.allHomed = AllHomed(Ev.nodes, Ev.pending, st.home, st.ranNodes),
+                        !.started = FALSE, !.inPass = TRUE, !.sameHome = SameHome(Ev.nodes, Ev.pending, st.home, st.ranNodes), !.allHomed = AllHomed(Ev.nodes, Ev.pending, st.home, st.ranNodes),
                         !.homeStage = IF SameHome(Ev.nodes, Ev.pending, st.home, st.ranNodes)
                                       THEN Stage(Ev.nodes[NodeByClaim(Ev.nodes, HomeOf(st.home, Ev.pending[1]))]) ELSE "-"]
     /\ UNCHANGED <<viol, ntr, cnt>>
@@ -130,6 +130,22 @@ TApi ==
     /\ cnt' = [cnt EXCEPT !.creates = @ + (IF Ev.kind = "NodeClaim" /\ Ev.verb = "create" /\ Ev.actor = "provisioner" /\ Ev.err = "-" THEN 1 ELSE 0)]
     /\ UNCHANGED <<st, ntr>>
 
+(* The instant Schedule starts (the provisioner lists the pending pods): the ground truth at THAT instant - a NodeClaim another   *)
+(* controller stored inside the batching window included - replaces the one taken before the reconcile; no scheduling pass may   *)
+(* start while a stored NodeClaim has not been launched.                                                                          *)
+TSchedStart ==
+    /\ Ev.e = "SchedStart"
+    /\ st' = [st EXCEPT !.nodes = Ev.nodes, !.started = TRUE]
+    /\ viol' = viol \o Chk(G_C04_PassOnlyWhenSynced(Ev.nodes), "G_C04_PassOnlyWhenSynced", "unlaunched:" \o ToString(Cardinality(Unlaunched(Ev.nodes))))
+    /\ UNCHANGED <<ntr, cnt>>
+\* a NodeClaim stored by another controller (Provisioner.CreateNodeClaims) - not one of this pass's
+TForeign ==
+    /\ Ev.e = "ForeignCreated"
+    /\ st' = [st EXCEPT !.home = SetHome(@, Range(Ev.pods), Ev.claim),
+                        !.optsOf = {x \in @ : x.claim # Ev.claim} \cup {[claim |-> Ev.claim, opts |-> Ev.opts]},
+                        !.passOf = @ \cup {[claim |-> Ev.claim, pass |-> 1000 + Ev.pass]}]
+    /\ UNCHANGED <<viol, ntr, cnt>>
+
 TCreated ==
     /\ Ev.e = "Created"
     /\ st' = [st EXCEPT !.created = Append(@, Ev), !.home = SetHome(@, Range(Ev.pods), Ev.claim),
@@ -149,7 +165,7 @@ TPassEnd ==
     /\ Ev.e = "PassEnd"
     /\ st' = [st EXCEPT !.inPass = FALSE, !.nguard = @ + (IF Ev.ran THEN 1 ELSE 0), !.ranNodes = IF Ev.ran THEN st.nodes ELSE @]
     /\ viol' = viol
-         \o (IF Ev.ran THEN Chk(G_C04_PassOnlyWhenSynced(st.nodes), "G_C04_PassOnlyWhenSynced",
+         \o (IF Ev.ran /\ ~st.started THEN Chk(G_C04_PassOnlyWhenSynced(st.nodes), "G_C04_PassOnlyWhenSynced",
                                   "unlaunched:" \o ToString(Cardinality(Unlaunched(st.nodes)))) ELSE <<>>)
          \o Flat([i \in DOMAIN st.pools |->
                 LET pl == st.pools[i] IN
@@ -183,7 +199,7 @@ TPassive == Ev.e \in Passive /\ UNCHANGED <<st, viol, ntr, cnt>>
 
 TraceNext ==
     \/ /\ l <= Len(Trace) /\ l' = l + 1 /\ UNCHANGED done
-       /\ (TCfg \/ TPassBegin \/ TSched \/ TApi \/ TCreated \/ TPassEnd \/ TTotals \/ TPassive)
+       /\ (TCfg \/ TPassBegin \/ TSched \/ TSchedStart \/ TForeign \/ TApi \/ TCreated \/ TPassEnd \/ TTotals \/ TPassive)
     \/ /\ l = Len(Trace) + 1 /\ ~done /\ done' = TRUE
        /\ JsonSerialize(IOEnv.OUT, [viol |-> viol, consumed |-> l - 1, traces |-> ntr, counts |-> cnt])
        /\ UNCHANGED <<l, st, viol, ntr, cnt>>
